@@ -11,6 +11,7 @@ argument is a small tagged list:
   ["dt", y, m, d, H, M, S, tz]            tz: null | ["utc"] | ["zi", key] | ["pytz", key]
                                               | ["du", key] | ["fixed", minutes] | ["fixed", minutes, name]
                                               | ["simdst"] (a hand-written tzinfo with two names and offsets)
+                                              | ["zi", key, 1] = fold=1: the second of two equal wall-clock times
   ["date", y, m, d, "sub"]  ["dt", ..., tz, "sub"]
                                           the same value as an instance of a subclass of date / datetime
                                           (what freezegun, pandas or pendulum hand to the library)
@@ -94,6 +95,8 @@ def to_py(spec):
         tz = tz_of(tzs)
         if tzs[0] == "pytz":
             return tz.localize(naive)
+        if tzs[0] == "zi" and len(tzs) > 2 and tzs[2]:
+            return naive.replace(tzinfo=tz, fold=1)
         return naive.replace(tzinfo=tz)
     if kind == "time":
         return time(spec[1], spec[2], spec[3])
